@@ -381,12 +381,27 @@ fn run_file(cx: &mut Ctx, dir: &str, events: &[(u64, ModelEvent)], via_rt: bool)
             Some(None) => true,
             None => false,
         };
+        if mine && me.failing_prop().is_some() {
+            // a line for an event whose value failed to format: it must at least be well-formed
+            cx.r.observe("file:failing-value-events-written", 1);
+            if let Err(e) = parse_json(&lines[at]) {
+                cx.violation(me, *idx, "C13:file:failing-value:malformed", format!("a value that fails to format part-way left a malformed line ({}): {}", e, clip(&lines[at])));
+            }
+            at += 1;
+            continue;
+        }
         if mine {
             check_file_line(cx, me, *idx, &lines[at]);
             at += 1;
             continue;
         }
         // no line for this event
+        if me.failing_prop().is_some() {
+            // a value that fails to format part-way: the event fails as a whole (cb37458)
+            dropped_other += 1;
+            cx.r.observe("file:failing-value-events-dropped-whole", 1);
+            continue;
+        }
         match me.compound_key_shapes().first() {
             Some(shape) => {
                 dropped_compound += 1;
@@ -1309,6 +1324,124 @@ fn run_otlp_mixed(cx: &mut Ctx, collector: &Collector, batch: &str, b: u64, even
     }
 }
 
+
+// ---------------------------------------------------------------------------
+// values whose formatting fails part-way, between ordinary events of the same batch
+// ---------------------------------------------------------------------------
+
+const LIFTED_ANYWHERE: &[&str] = &["lvl", "trace_id", "span_id", "span_parent", "err", "evt_kind", "span_name", "metric_name", "metric_value", "metric_agg", "metric_unit"];
+
+fn expected_signal(me: &ModelEvent) -> &'static str {
+    match me.kind {
+        Kind::Log => "logs",
+        Kind::Span => "traces",
+        Kind::Metric => "metrics",
+    }
+}
+
+fn run_otlp_failing(cx: &mut Ctx, collector: &Collector, batch: &str, events: &[(u64, ModelEvent)], dump: bool) {
+    for enc in [Enc::Proto, Enc::Json] {
+        let base = format!("/{}/fail-{}", batch, enc.name());
+        let t = |signal: &str| emit_otlp::http(collector.url(&format!("{}/v1/{}", base, signal))).allow_compression(false);
+        let otlp = match enc {
+            Enc::Proto => emit_otlp::new().logs(emit_otlp::logs_proto(t("logs"))).traces(emit_otlp::traces_proto(t("traces"))).metrics(emit_otlp::metrics_proto(t("metrics"))).spawn(),
+            Enc::Json => emit_otlp::new().logs(emit_otlp::logs_json(t("logs"))).traces(emit_otlp::traces_json(t("traces"))).metrics(emit_otlp::metrics_json(t("metrics"))).spawn(),
+        };
+        let otlp = std::sync::Arc::new(otlp);
+        let mut panicked: BTreeMap<usize, String> = BTreeMap::new();
+        deliver(otlp.clone(), false, events, |_| {}, |n, res, _| {
+            if let Err(p) = res {
+                panicked.insert(n, p);
+            }
+        });
+        if !otlp.blocking_flush(Duration::from_secs(30)) {
+            cx.r.inconclusive("emit_otlp (failing values) did not flush within 30 s");
+        }
+        drop(otlp);
+        let batch_case = json!({"seed": cx.seed, "section": cx.section, "batch": batch, "first_idx": events.first().map(|e| e.0)});
+        // (2) every request stays decodable
+        let mut d = Decoded::default();
+        for req in collector.take_prefix(&base) {
+            let signal = req.path.rsplit('/').next().unwrap_or("").to_string();
+            cx.r.observe(&format!("failing:otlp:{}:{}:requests", enc.name(), signal), 1);
+            let res = match enc {
+                Enc::Proto => decode_proto(&req.path, &req.body, &mut d),
+                Enc::Json => decode_json(&req.path, &req.body, &mut d),
+            };
+            if dump {
+                eprintln!("BODY {} {} {:?}", enc.name(), req.path, String::from_utf8_lossy(&req.body));
+            }
+            if let Err(e) = res {
+                let mut case = batch_case.clone();
+                case["body"] = json!(clip(&String::from_utf8_lossy(&req.body)));
+                cx.r.violation(&format!("C13:otlp:failing-value:{}:{}:request-undecodable", enc.name(), signal), &format!("a batch holding an event with a part-way failing value: the {} {} request does not decode: {}", enc.name(), signal, clip(&e)), case);
+            }
+        }
+        for (n, (idx, me)) in events.iter().enumerate() {
+            let failing = me.failing_prop();
+            // (1) no panic on the caller thread
+            if let Some(p) = panicked.get(&n) {
+                match failing {
+                    Some(fp) => cx.violation(me, *idx, &format!("C13:otlp:failing-value:{}:{}:panic", enc.name(), expected_signal(me)), format!("emit_otlp ({}) panicked on the caller thread for a value whose {} fails part-way: {}", enc.name(), fp.cap.name(), p)),
+                    None => cx.violation(me, *idx, &format!("C13:otlp:{}:panic", enc.name()), format!("emit_otlp ({}) panicked on the caller thread: {}", enc.name(), p)),
+                }
+                continue;
+            }
+            let f = find_records(&d, &me.vid);
+            let total = f.logs.len() + f.spans.len() + f.metrics.len();
+            let fp = match failing {
+                None => {
+                    // (3) the ordinary neighbours are exported exactly once and faithful
+                    cx.r.observe(&format!("failing:otlp:{}:neighbours", enc.name()), 1);
+                    if total != 1 {
+                        cx.violation(me, *idx, &format!("C13:otlp:failing-value:{}:{}:neighbours-{}", enc.name(), expected_signal(me), if total == 0 { "lost" } else { "duplicated" }), format!("{}: an ordinary event in a batch that also holds a part-way failing value is found in {} records", enc.name(), total));
+                        continue;
+                    }
+                    for r in &f.logs {
+                        check_log(cx, me, *idx, enc, r);
+                    }
+                    for r in &f.spans {
+                        check_span(cx, me, *idx, enc, r);
+                    }
+                    for r in &f.metrics {
+                        check_metric(cx, me, *idx, enc, r);
+                    }
+                    continue;
+                }
+                Some(fp) => fp,
+            };
+            // (4) the failing event itself: observed, classified from the model
+            let end = me.eff_extent().map(|e| e.1).unwrap_or(0);
+            let by_time_logs: Vec<&LogRec> = d.logs.iter().filter(|r| r.time == end).collect();
+            let by_time_spans: Vec<&SpanRec> = d.spans.iter().filter(|r| r.end == end).collect();
+            let by_time_metrics: Vec<&MetricRec> = d.metrics.iter().filter(|r| r.points.iter().any(|p| p.time == end)).collect();
+            let attrs: Option<(&'static str, Attrs)> = by_time_logs
+                .first()
+                .map(|r| ("logs", r.attrs.clone()))
+                .or(by_time_spans.first().map(|r| ("traces", r.attrs.clone())))
+                .or(by_time_metrics.first().map(|r| ("metrics", r.points[0].attrs.clone())));
+            let label = me.directed.clone().unwrap_or_default();
+            let outcome = match &attrs {
+                None => "absent".to_string(),
+                Some((signal, attrs)) => {
+                    let bad = match attr(attrs, "bad") {
+                        None => "bad=absent".to_string(),
+                        Some(AnyObs::Empty) => "bad=key-without-value".to_string(),
+                        Some(AnyObs::Str(s)) if s == FAIL_PARTIAL => "bad=partial-text-as-value".to_string(),
+                        Some(AnyObs::Array(a)) => format!("bad=partial-array-of-{}", a.len()),
+                        Some(other) => format!("bad={}", clip(&format!("{:?}", other)).chars().take(40).collect::<String>()),
+                    };
+                    let expected: Vec<&str> = me.keys().into_iter().filter(|k| *k != "bad" && !LIFTED_ANYWHERE.contains(k)).collect();
+                    let missing: Vec<&str> = expected.iter().copied().filter(|k| attr(attrs, k).is_none()).collect();
+                    format!("present-in-{};{};other-attributes-missing={}/{}", signal, bad, missing.len(), expected.len())
+                }
+            };
+            cx.r.observe(&format!("failing:otlp:{}:{}:{}", enc.name(), label, outcome), 1);
+            let _ = fp;
+        }
+    }
+}
+
 // ---------------------------------------------------------------------------
 // terminal sink (child process)
 // ---------------------------------------------------------------------------
@@ -1425,7 +1558,10 @@ fn run_term(cx: &mut Ctx, events: &[(u64, ModelEvent)], from: u64, to: u64, comp
             cx.r.observe("term:messages-with-hostile-hole-text", 1);
         }
         let msg = me.msg_text();
-        if !body.contains(&msg) {
+        if me.failing_hole() {
+            // the message itself cannot be rendered: only "no panic" is required
+            cx.r.observe("term:failing-value-in-message", 1);
+        } else if !body.contains(&msg) {
             cx.violation(me, *idx, "C13:term:message-missing", format!("terminal output {:?} does not contain the rendered message {:?}", clip(body), msg));
         }
         if let (Some(p), MetricValue::Seq(ws)) = (me.first("metric_value"), metric_value(me)) {
@@ -1485,6 +1621,25 @@ fn section_events(seed: u64, section: &str, from: u64, to: u64, compound: bool) 
             .map(|i| {
                 let mut g = Rng::stream(seed, &[13, 2, i]);
                 (i, gen_rt_event(&mut g, seed, section, i))
+            })
+            .collect(),
+        // the smallest reproduction of the failing-value defect: before / failing / after
+        "failing-min" => {
+            let mk = |i: u64, name: &str, bad: Option<Cap>| {
+                let vid = format!("v{}-failing-min-{}", seed, name);
+                let mut props = vec![Prop::new("vid", M::Str(vid.clone()), Cap::Typed)];
+                if let Some(c) = bad {
+                    props.push(Prop::new("bad", M::Str(FAIL_PARTIAL.into()), c));
+                }
+                props.push(Prop::new("after", M::I32(1), Cap::Typed));
+                ModelEvent { vid: vid.clone(), mdl: "c13".into(), parts: vec![(false, vid.clone())], extent: Some((None, BASE_NANOS + i)), props, kind: Kind::Log, directed: bad.map(|c| format!("failing:{}:middle:no-hole", c.name())), ambient: Vec::new(), clock: None, wild: None, macro_site: None }
+            };
+            vec![(0, mk(0, "before", None)), (1, mk(1, "bad", Some(Cap::FailDisplay))), (2, mk(2, "after", None))].into_iter().filter(|(i, _)| *i >= from && *i < to).collect()
+        }
+        "failing" => (from..to)
+            .map(|i| {
+                let mut g = Rng::stream(seed, &[13, 5, i]);
+                (i, gen_failing_section_event(&mut g, seed, section, i))
             })
             .collect(),
         "mixed" => (from..to)
@@ -1551,6 +1706,20 @@ fn run_batch(r: &mut Report, collector: &Collector, root: &str, seed: u64, secti
         }
     }
     let batch = format!("{}-{}-{}", section, from, to);
+    if section == "failing" || section == "failing-min" {
+        if sinks.contains("otlp") {
+            run_otlp_failing(&mut cx, collector, &batch, &events, dump);
+        }
+        if sinks.contains("file") {
+            let dir = format!("{}/{}", root, batch);
+            run_file(&mut cx, &dir, &events, false);
+            let _ = std::fs::remove_dir_all(&dir);
+        }
+        if sinks.contains("term") {
+            run_term(&mut cx, &events, from, to, compound);
+        }
+        return;
+    }
     if section == "mixed" {
         if sinks.contains("otlp") {
             run_otlp_mixed(&mut cx, collector, &batch, from / 50, &events);
@@ -1599,8 +1768,13 @@ fn main() {
     }
 
     if let Some(sec) = args.get("section-only") {
-        let n = section_events(seed, sec, 0, u64::MAX, sec == "compound").len().min(args.get_u64("events", 100) as usize) as u64;
-        run_batch(&mut r, &collector, &root, seed, sec, 0, n, sec == "compound", &sinks, dump);
+        let n = if ["directed", "quirk"].contains(&sec) { section_events(seed, sec, 0, u64::MAX, false).len() as u64 } else { args.get_u64("events", 100) };
+        let step = args.get_u64("batch", 100);
+        let mut from = 0;
+        while from < n {
+            run_batch(&mut r, &collector, &root, seed, sec, from, (from + step).min(n), sec == "compound", &sinks, dump);
+            from += step;
+        }
         collector.stop();
         let _ = std::fs::remove_dir_all(&root);
         std::process::exit(r.finish());
@@ -1639,6 +1813,14 @@ fn main() {
     let batches4 = (n4 + batch - 1) / batch;
     par_cases(&mut r, &args, batches4, |b, r| {
         run_batch(r, &collector, &root, seed, "wild", b * batch, ((b + 1) * batch).min(n4), false, &sinks, dump);
+    });
+
+    // 7. values whose formatting fails part-way, between ordinary events of the same batch
+    //    (off by default until the findings it re-observes are dispositioned: `--failing-events N`)
+    let n6 = args.get_u64("failing-events", 0);
+    let batches6 = (n6 + batch - 1) / batch;
+    par_cases(&mut r, &args, batches6, |b, r| {
+        run_batch(r, &collector, &root, seed, "failing", b * batch, ((b + 1) * batch).min(n6), false, &sinks, dump);
     });
 
     // 6. one Otlp instance whose signals use different encodings, with / without a rich resource,
